@@ -99,6 +99,19 @@ def run(ctx):
             return
     P = evaluate(ctx, "C16_cases", obs)
     report(ctx, obs, P)
+    # targeted probes: a blocked backend Close must not stall the connection; the shared qids.Mapper under contention
+    rc3, out3, obs3 = ctx.gotest("p9", "^TestVerifC16Stall$", FILES, timeout=300)
+    st = [o for o in obs3 if o.get("kind") == "stall"]
+    if rc3 != 0 or not st:
+        ctx.harness_broken("harness TestVerifC16Stall failed (rc=%d)" % rc3, out3)
+    elif not st[0]["answered"]:
+        ctx.violation("C16:stall", "a request on another fid was not answered (3 x 1.1 s) while the backend held the Close of a Tclunk on the same connection", st[0])
+    rc4, out4, obs4 = ctx.gotest("fsimpl/qids", "^TestVerifC16Mapper$", ["c16_mapper_test.go"], timeout=300, race=ctx.thorough)
+    mp = [o for o in obs4 if o.get("kind") == "mapper"]
+    if "concurrent map" in out4 or "DATA RACE" in out4 or (mp and not mp[0]["consistent"]):
+        ctx.violation("C16:mapper", "qids.Mapper used from concurrent requests: runtime abort / data race / inconsistent QID paths", {"output": out4[:3000], "obs": mp})
+    elif rc4 != 0 or not mp:
+        ctx.harness_broken("harness TestVerifC16Mapper failed (rc=%d)" % rc4, out4)
     race = None
     if ctx.thorough:
         # supporting evidence only: the same workload under the race detector (needs cgo)
